@@ -1,21 +1,27 @@
 /*UNIT
 {"props": ["C13"], "src": ["lib/log_format.c"], "mode": "plain", "kind": "bounded",
- "bound": "format strings of at most VERIF_FMT_MAX (4) characters over the alphabet { % - 0-9 n f p b g x blank }, complete directives, function/file texts <= 3 and message <= 6 characters, 4 <= M <= 8, priorities info and out-of-range, ellipsis on/off; all loops unwound 12 times",
- "unwind": 12, "unwindset": ["qb_log_target_format.0:5", "qb_log_target_format.1:6", "verif_memcpy.0:9", "verif_memset.0:9", "verif_strlen.0:8", "verif_atoi.0:5", "verif_strrchr.0:5", "harness.4:4", "harness.5:6", "harness.6:5"],
+ "bound": "one concrete format string per variant (see variants); function/file texts <= 3 and message <= 6 symbolic characters, 4 <= M <= 12, priorities info and out-of-range, ellipsis on/off; all loops unwound 13 times",
+ "unwind": 13,
  "functions": ["qb_log_target_format", "_strcpy_cutoff"],
  "restrict_fp": ["qb_log_target_format.function_pointer_call.1/verif_tags_fn"],
  "stubs": ["strlen/strrchr/atoi/memcpy/memset (exact byte loops, stubs/str.h VERIF_STR_LOOPS)", "isdigit (C locale)", "pthread_rwlock_* (no-ops)",
            "qb_log_target_get (one arbitrary target record)", "tags stringify callback (returns a fixed text)"],
- "defines": ["-DVERIF_STR_LOOPS", "-DVERIF_FMT_MAX=4", "-DVERIF_EXIT_CLASS=(verif_plain_out_nonempty)"],
- "expect_classes": ["assertion"], "timeout": 300, "cbmc_flags": ["--no-malloc-may-fail"]}
+ "expect_classes": ["assertion"], "timeout": 300, "cbmc_flags": ["--no-malloc-may-fail"],
+ "variants": [
+  {"vname": "default", "defines": ["-DVERIF_STR_LOOPS", "-DV_FMT=\"[%p] %b\""]},
+  {"vname": "width",   "defines": ["-DVERIF_STR_LOOPS", "-DV_FMT=\"%5b|%2n\""]},
+  {"vname": "ralign",  "defines": ["-DVERIF_STR_LOOPS", "-DV_FMT=\"%-5f %-2b\""]},
+  {"vname": "tags",    "defines": ["-DVERIF_STR_LOOPS", "-DV_FMT=\"%g%x%3g:%b\""]},
+  {"vname": "wide",    "defines": ["-DVERIF_STR_LOOPS", "-DV_FMT=\"a%12p%n\""]}]}
 */
-/* Directive CONTENT of qb_log_target_format, bounded: the real loops (no loop contracts, exact string helpers)
+/* Directive CONTENT of qb_log_target_format, bounded, on format templates (symbolic formats unwound over the whole
+ * directive switch exceed the memory limit): the real loops (no loop contracts, exact string helpers)
  * against a reference formatter written from the documentation (qblog.h: %n function, %f file name without
  * directories, %p priority name, %b message, %g tags; "any number between % and character specify field length
  * to pad or chop"; '-' right-aligns as the test-suite shows; unknown directives expand to nothing; the line is cut
  * at M - 1 characters and, with the option on, a cut line ends in "...").  The output must equal the reference text
  * byte for byte and be terminated right after it.  Empty lines are excluded here (unit format.emptyline). */
-static int verif_plain_out_nonempty = 1;
+
 #include "common.h"
 
 static const char *verif_tags_fn(uint32_t tags)
@@ -26,28 +32,22 @@ static const char *verif_tags_fn(uint32_t tags)
 void harness(void)
 {
 	VERIF_ND(size_t, nd_M);
-	VERIF_ND(uint8_t, nd_fmtlen);
 	VERIF_ND(uint8_t, nd_msglen);
 	VERIF_ND(uint8_t, nd_funclen);
 	VERIF_ND(uint8_t, nd_filelen);
 	VERIF_ND(uint8_t, nd_ellipsis);
 	VERIF_ND(uint8_t, nd_prio);
 	VERIF_ND(uint8_t, nd_have_tags_fn);
-	char fmt[VERIF_FMT_MAX + 1], msg[7], func[4], file[4];
+	static char fmt[] = V_FMT;
+	char msg[7], func[4], file[4];
 	struct qb_log_callsite cs;
 	struct timespec ts;
 	verif_str_reset();
 	verif_obs_reset();
-	ASSUME(nd_M >= 4 && nd_M <= 8);
+	ASSUME(nd_M >= 4 && nd_M <= 12);
 	ASSUME(nd_prio == 6 || nd_prio == 200);   /* two priority names: one in the table, one clamped to "trace" */
-	ASSUME(nd_fmtlen >= 1 && nd_fmtlen <= VERIF_FMT_MAX && nd_msglen <= 6 && nd_funclen <= 3 && nd_filelen <= 3);
-	for (unsigned i = 0; i < VERIF_FMT_MAX; i++) {
-		VERIF_ND(uint8_t, nd_fc);
-		ASSUME(nd_fc == '%' || nd_fc == '-' || (nd_fc >= '0' && nd_fc <= '9') || nd_fc == 'n' || nd_fc == 'f' || nd_fc == 'p' ||
-		       nd_fc == 'b' || nd_fc == 'g' || nd_fc == 'x' || nd_fc == ' ');
-		fmt[i] = (char)nd_fc;
-	}
-	fmt[nd_fmtlen] = 0;
+	ASSUME(nd_msglen <= 6 && nd_funclen <= 3 && nd_filelen <= 3);
+	size_t nd_fmtlen = sizeof(fmt) - 1;
 	for (unsigned i = 0; i < 6; i++) { VERIF_ND(uint8_t, nd_mc); ASSUME(nd_mc >= 'A' && nd_mc <= 'Z'); msg[i] = (char)nd_mc; }
 	msg[nd_msglen] = 0;
 	for (unsigned i = 0; i < 3; i++) { VERIF_ND(uint8_t, nd_nc); ASSUME(nd_nc >= 'a' && nd_nc <= 'z'); func[i] = (char)nd_nc; }
@@ -114,9 +114,7 @@ void harness(void)
 
 	qb_log_target_format(0, &cs, &ts, msg, out);
 
-	COVER(ref_len == nd_M - 1 && (nd_ellipsis & 1)); COVER(ref_len < nd_M - 1); COVER(nd_fmtlen == VERIF_FMT_MAX);
-	COVER(fmt[0] == '%' && fmt[1] == '-' && fmt[2] == '5' && fmt[3] == 'b'); COVER(fmt[0] == '%' && fmt[1] == 'f');
-	COVER(fmt[0] == '%' && fmt[1] == '2' && fmt[2] == 'p');
+	COVER(ref_len == nd_M - 1 && (nd_ellipsis & 1)); COVER(ref_len == nd_M - 1 && !(nd_ellipsis & 1)); COVER(ref_len < nd_M - 1);
 	POST(out[ref_len] == 0, "the formatted line ends where the documented expansion, cut at the limit, ends");
 	POST((unsigned char)out[nd_wit] == expect, "the formatted line equals the text the documented directives prescribe");
 }
